@@ -72,8 +72,7 @@ type retPolicy struct {
 	lhs     []ast.Expr // targets (already copied); nil for a call statement
 	define  bool
 	end     string         // label behind the inlined statements
-	lErr    string         // label inside the caller's `if err != nil` body ("" = none)
-	lOk     string         // label behind the caller's test
+	thread  *threader      // jump threading into the statement that follows the call (nil = none)
 	named   []types.Object // named results of the helper
 	orig    *core.Fn       // the helper (for error classification on original nodes)
 	origRet map[*ast.ReturnStmt]*ast.ReturnStmt
@@ -259,9 +258,12 @@ func (cl *cloner) stmts(list []ast.Stmt) []ast.Stmt {
 	out := make([]ast.Stmt, 0, len(list))
 	for i := 0; i < len(list); i++ {
 		s := list[i]
-		var next *ast.IfStmt
+		var next ast.Stmt
 		if i+1 < len(list) {
-			next, _ = list[i+1].(*ast.IfStmt)
+			switch list[i+1].(type) {
+			case *ast.IfStmt, *ast.SwitchStmt:
+				next = list[i+1]
+			}
 		}
 		if ss, used := cl.stmt(s, next); ss != nil {
 			out = append(out, ss...)
@@ -277,7 +279,7 @@ func (cl *cloner) stmts(list []ast.Stmt) []ast.Stmt {
 
 // stmt handles the statements that get special treatment; nil means "copy as is".
 // usedNext reports that the following if statement was consumed as well.
-func (cl *cloner) stmt(s ast.Stmt, next *ast.IfStmt) (out []ast.Stmt, usedNext bool) {
+func (cl *cloner) stmt(s ast.Stmt, next ast.Stmt) (out []ast.Stmt, usedNext bool) {
 	switch x := s.(type) {
 	case *ast.ReturnStmt:
 		var tail *ast.CallExpr
@@ -321,6 +323,29 @@ func (cl *cloner) stmt(s ast.Stmt, next *ast.IfStmt) (out []ast.Stmt, usedNext b
 		}
 		if call, h := cl.callAssign(x); h != nil {
 			return cl.inlineAssign(x, call, h, next)
+		}
+	case *ast.SwitchStmt:
+		// `switch h(args) { case k: }`: the tag is computed first, then tested
+		if call, ok := ast.Unparen(x.Tag).(*ast.CallExpr); ok && x.Init == nil {
+			if h := cl.inlinable(call); h != nil {
+				if t := cl.info.TypeOf(call); t != nil {
+					if _, isTuple := t.(*types.Tuple); !isTuple {
+						v := types.NewVar(call.Pos(), cl.pkg, "_tag", t)
+						def := &ast.Ident{NamePos: call.Pos(), Name: "_tag"}
+						use := &ast.Ident{NamePos: call.Pos(), Name: "_tag"}
+						cl.info.Defs[def], cl.info.Uses[use] = v, v
+						cl.info.Types[use] = types.TypeAndValue{Type: t}
+						as := &ast.AssignStmt{Lhs: []ast.Expr{def}, TokPos: call.Pos(), Tok: token.DEFINE, Rhs: []ast.Expr{call}}
+						sw := *x
+						sw.Tag = use
+						ss, used := cl.inlineAssign(as, call, h, &sw)
+						if !used {
+							ss = append(ss, cl.node(&sw).(ast.Stmt))
+						}
+						return []ast.Stmt{&ast.BlockStmt{Lbrace: x.Pos(), List: ss, Rbrace: x.End()}}, false
+					}
+				}
+			}
 		}
 	case *ast.IfStmt:
 		if as, ok := x.Init.(*ast.AssignStmt); ok {
@@ -478,62 +503,73 @@ func (cl *cloner) dropClosureDef(as *ast.AssignStmt) bool {
 }
 
 // inlineAssign handles `lhs := h(args)`, possibly followed by `if err != nil { A }`.
-func (cl *cloner) inlineAssign(as *ast.AssignStmt, call *ast.CallExpr, h *core.Fn, next *ast.IfStmt) ([]ast.Stmt, bool) {
+func (cl *cloner) inlineAssign(as *ast.AssignStmt, call *ast.CallExpr, h *core.Fn, next ast.Stmt) ([]ast.Stmt, bool) {
 	pol := &retPolicy{define: as.Tok == token.DEFINE}
 	for _, l := range as.Lhs {
 		pol.lhs = append(pol.lhs, cl.expr(l))
 	}
-	// alias: x := h() where h ends in its only `return <locals>`
+	// alias: x := h() where h has a single return of its own locals (or a bare return of named results):
+	// x simply is that local from then on
 	if pol.define {
-		if rets := returnsOf(h.Decl.Body); len(rets) == 1 && len(h.Decl.Body.List) > 0 && h.Decl.Body.List[len(h.Decl.Body.List)-1] == ast.Stmt(rets[0]) && len(rets[0].Results) == len(as.Lhs) {
-			ok := true
-			for i, res := range rets[0].Results {
+		if rets := returnsOf(h.Decl.Body); len(rets) == 1 {
+			var res []ast.Expr
+			res = append(res, rets[0].Results...)
+			if len(res) == 0 && h.Decl.Type.Results != nil {
+				for _, f := range h.Decl.Type.Results.List {
+					for _, n := range f.Names {
+						res = append(res, n)
+					}
+				}
+			}
+			ok := len(res) == len(as.Lhs) && len(res) > 0
+			for i := 0; ok && i < len(res); i++ {
 				lid, _ := ast.Unparen(as.Lhs[i]).(*ast.Ident)
+				ro := core.ObjOf(cl.info, res[i])
+				if lid == nil || ro == nil {
+					ok = false
+					break
+				}
 				lo := cl.info.Defs[lid]
-				ro := Obj(cl.info, res)
-				if lid == nil || lid.Name != "_" && (lo == nil || Assignments(cl.info, cl.outer, lo) != 1) || ro == nil || !DefinedIn(cl.info, h.Decl.Body, ro) {
+				isLocal := DefinedIn(cl.info, h.Decl.Body, ro) || DefinedIn(cl.info, h.Decl.Type, ro) && h.Decl.Type.Results != nil && DefinedIn(cl.info, h.Decl.Type.Results, ro)
+				if lid.Name != "_" && (lo == nil || Assignments(cl.info, cl.outer, lo) != 1) || !isLocal {
 					ok = false
 				}
 			}
 			if ok {
 				pol.lhs = nil
-				out := cl.inline(call, h, pol, func(ret *ast.ReturnStmt) {
-					for i, res := range ret.Results {
-						if lid := ast.Unparen(as.Lhs[i]).(*ast.Ident); lid.Name != "_" {
-							cl.subst[cl.info.Defs[lid]] = ast.Unparen(res)
-						}
+				out := cl.inline(call, h, pol, nil)
+				for i, r := range res {
+					if lid := ast.Unparen(as.Lhs[i]).(*ast.Ident); lid.Name != "_" {
+						id := ast.Unparen(r).(*ast.Ident)
+						use := &ast.Ident{NamePos: id.NamePos, Name: id.Name}
+						cl.info.Uses[use] = core.ObjOf(cl.info, id)
+						cl.info.Types[use] = types.TypeAndValue{Type: core.ObjOf(cl.info, id).Type()}
+						cl.subst[cl.info.Defs[lid]] = use
 					}
-				})
+				}
 				return out, false
 			}
 		}
 	}
-	// error correlation with the following test
-	var test *ast.IfStmt
-	if next != nil && next.Init == nil && len(as.Lhs) >= 1 {
-		if eo := Obj(cl.info, as.Lhs[len(as.Lhs)-1]); eo != nil && cfgq.IsErrorType(eo.Type()) {
-			if fs := cfgq.Facts(next.Cond, true); len(fs) == 1 {
-				if isNil, ok := NilCmp(cl.info, fs[0], IsObj(cl.info, eo)); ok && !isNil {
-					if _, elseIf := next.Else.(*ast.IfStmt); !elseIf && len(next.Body.List) > 0 {
-						test = next
-					}
-				}
-			}
-		}
+	// jump threading into the statement that tests the results
+	var nextOK bool
+	switch n := next.(type) {
+	case *ast.IfStmt:
+		nextOK = n != nil && n.Init == nil
+	case *ast.SwitchStmt:
+		nextOK = n != nil && n.Init == nil
 	}
-	if test == nil {
+	if !nextOK {
 		return cl.inline(call, h, pol, nil), false
 	}
-	pol.lErr, pol.lOk = cl.in.label("err"), cl.in.label("ok")
+	th := &threader{cl: cl, orig: next, copy: cl.node(next).(ast.Stmt), after: cl.in.label("after"), labels: map[*ast.Stmt]string{}}
+	pol.thread = th
 	out := cl.inline(call, h, pol, nil)
-	ifc := cl.node(test).(*ast.IfStmt)
-	ifc.Body.List[0] = &ast.LabeledStmt{Label: ast.NewIdent(pol.lErr), Colon: ifc.Body.List[0].Pos(), Stmt: ifc.Body.List[0]}
-	okLabel := &ast.LabeledStmt{Label: ast.NewIdent(pol.lOk), Colon: test.End(), Stmt: &ast.EmptyStmt{Semicolon: test.End(), Implicit: true}}
-	if eb, ok := ifc.Else.(*ast.BlockStmt); ok && len(eb.List) > 0 {
-		eb.List[0] = &ast.LabeledStmt{Label: ast.NewIdent(pol.lOk), Colon: eb.List[0].Pos(), Stmt: eb.List[0]}
-		return append(out, ifc), true
+	out = append(out, th.copy)
+	if th.used {
+		out = append(out, &ast.LabeledStmt{Label: ast.NewIdent(th.after), Colon: next.End(), Stmt: &ast.EmptyStmt{Semicolon: next.End(), Implicit: true}})
 	}
-	return append(out, ifc, okLabel), true
+	return out, true
 }
 
 func returnsOf(body *ast.BlockStmt) []*ast.ReturnStmt {
@@ -665,13 +701,31 @@ func (cl *cloner) rewriteReturn(ret *ast.ReturnStmt) []ast.Stmt {
 	if len(results) == len(lhs) || len(results) == 1 {
 		out = append(out, &ast.AssignStmt{Lhs: lhs, TokPos: ret.Pos(), Tok: tok, Rhs: results})
 	}
-	if p.lErr != "" && len(ret.Results) == len(lhs) && len(ret.Results) > 0 {
-		last := ret.Results[len(ret.Results)-1]
-		switch {
-		case core.IsNil(cl.info, last):
-			target = p.lOk
-		case nonNilErr(cl.info, p.orig.Decl.Body, ret, last):
-			target = p.lErr
+	if p.thread != nil && len(ret.Results) == len(p.lhs) && len(ret.Results) > 0 {
+		env := kenv{}
+		for i, l := range p.lhs {
+			o := Obj(cl.info, l)
+			if o == nil {
+				continue
+			}
+			r := ret.Results[i]
+			switch {
+			case core.IsNil(cl.info, r):
+				env[o] = known{kind: 1}
+			case nonNilErr(cl.info, p.orig.Decl.Body, ret, r) || cl.boundNonNil(r):
+				env[o] = known{kind: 2}
+			default:
+				if tv, ok := cl.info.Types[r]; ok && tv.Value != nil {
+					if k, isInt := core.IntConst(cl.info, r); isInt {
+						env[o] = known{kind: 4, k: k}
+					} else if s := tv.Value.String(); s == "true" || s == "false" {
+						env[o] = known{kind: 3, b: s == "true"}
+					}
+				}
+			}
+		}
+		if l := p.thread.target(env); l != "" {
+			target = l
 		}
 	}
 	return append(out, jump(target))
@@ -783,4 +837,35 @@ func ReachingDef(g *cfgq.Graph, obj types.Object, at cfgq.Point) ast.Expr {
 		return nil
 	}
 	return rhs
+}
+
+// boundNonNil: r (a result expression of the helper being inlined) is an error
+// constructor applied to a parameter that this call binds to a package-level
+// sentinel error, e.g. errors.Trace(errBadLen) with errBadLen := ErrBadRespBytesLen.
+func (cl *cloner) boundNonNil(r ast.Expr) bool {
+	sentinel := func(e ast.Expr) bool {
+		rep, ok := cl.subst[Obj(cl.info, e)]
+		if !ok {
+			return false
+		}
+		v, isVar := core.ObjOf(cl.info, rep).(*types.Var)
+		return isVar && v.Pkg() != nil && v.Parent() == v.Pkg().Scope() && cfgIsError(v.Type())
+	}
+	r = ast.Unparen(r)
+	if sentinel(r) {
+		return true
+	}
+	if call, ok := r.(*ast.CallExpr); ok && len(call.Args) >= 1 {
+		if f := core.CalleeFunc(cl.info, call); f != nil {
+			switch f.Name() {
+			case "Trace", "WithStack", "Wrap", "Wrapf":
+				return cl.boundNonNil(call.Args[0])
+			}
+		}
+	}
+	return false
+}
+
+func cfgIsError(t types.Type) bool {
+	return types.Identical(t, types.Universe.Lookup("error").Type())
 }
